@@ -6,7 +6,7 @@ open Mieru.Driver
 
 /-!
 ops (C15):
-  c15-hist <tcp|udp> <bound> <prop> <eps> <fault|-> <event>…
+  c15-hist <tcp|udp> <bound> <prop> <eps> <fault|-> <stalled side c|s|-> <event>…
       event = R|W|C|M:<c|s>:<sess>:<start>:<ret>:<kind>:<n>     a Read / Write / Close / Mux.Close call
             | D:<c|s>:<sess>:<r|w|rw>:<when>:<deadline>          a Set*Deadline call
       → ok accept | ok reject <index of the call among the calls>
@@ -61,18 +61,19 @@ def parseHTok (t : String) : Option HTok :=
 
 def runHist (args : List String) : String :=
   match args with
-  | tr :: bound :: prop :: eps :: fault :: toks =>
+  | tr :: bound :: prop :: eps :: fault :: stall :: toks =>
     let udp? : Option Bool := if tr == "udp" then some true else if tr == "tcp" then some false else none
     let fault? : Option (Option Nat) := if fault == "-" then some none else fault.toNat?.map some
-    match udp?, bound.toNat?, prop.toNat?, eps.toNat?, fault?, toks.mapM parseHTok with
-    | some udp, some bound, some prop, some eps, some fault, some toks =>
+    let stall? : Option (Option Blocking.Side) := if stall == "-" then some none else (parseSide stall).map some
+    match udp?, bound.toNat?, prop.toNat?, eps.toNat?, fault?, stall?, toks.mapM parseHTok with
+    | some udp, some bound, some prop, some eps, some fault, some stall, some toks =>
       let calls := toks.filterMap fun | .call c => some c | _ => none
       let dls := toks.filterMap fun | .dl d => some d | _ => none
-      let h : Blocking.Hist := ⟨udp, bound, prop, eps, fault, calls, dls⟩
+      let h : Blocking.Hist := ⟨udp, bound, prop, eps, fault, calls, dls, stall⟩
       match Blocking.firstRejected h with
       | none => "ok accept"
       | some i => s!"ok reject {i}"
-    | _, _, _, _, _, _ => "bad-op"
+    | _, _, _, _, _, _, _ => "bad-op"
   | _ => "bad-op"
 
 def parseObs (t : String) : Option Deadline.Obs :=
